@@ -176,6 +176,9 @@ func yamlDocDefault(m Model) yaml.MapSlice {
 		}
 		doc = append(doc, yaml.MapItem{Key: "calls", Value: l})
 	}
+	if len(m.Scenarios) == 0 && m.Layout.YAMLNoScenariosKey {
+		return doc // a description without scenarios, written without the key
+	}
 	l := []yaml.MapSlice{}
 	for _, s := range m.Scenarios {
 		l = append(l, yScenario(s))
